@@ -314,6 +314,18 @@ func (c20) Eval(c *Chooser, env *Env) *Outcome {
 		files = append(files, p)
 		texts[p] = t
 	}
+	// sometimes the last argument belongs to a second repository whose configuration cannot be
+	// loaded: the run is fatal, and still nothing may be left running when the call returns
+	brokenRepo := len(files) >= 2 && c.Weighted("world.brokenrepo", 1, 8)
+	if brokenRepo {
+		disk.MkdirAll("/w/broken/.git")
+		disk.Put("/w/broken/.github/actionlint.yaml", []byte("self-hosted-runner: 1\n"))
+		p := "/w/broken/.github/workflows/x.yml"
+		t := genC20Workflow(c, 9)
+		disk.Put(p, []byte(t))
+		files = append(files, p)
+		texts[p] = t
+	}
 	tools := &Tools{Missing: map[string]bool{}, Faults: map[string]ToolFault{}, Errno: map[string]int64{}}
 	haveSC, havePF := true, true
 	switch c.Int("world.tools", 6) {
@@ -327,7 +339,11 @@ func (c20) Eval(c *Chooser, env *Env) *Outcome {
 	}
 	w := &World{Disk: disk, Cwd: root, CPUs: []int{2, 1, 4, 16, 3}[c.Int("world.cpus", 5)], API: APIFiles, Tools: tools, Note: "C20 tool integration"}
 	for _, f := range files {
-		w.Files = append(w.Files, strings.TrimPrefix(f, root+"/"))
+		if strings.HasPrefix(f, root+"/") {
+			w.Files = append(w.Files, strings.TrimPrefix(f, root+"/"))
+		} else {
+			w.Files = append(w.Files, f)
+		}
 	}
 	if haveSC {
 		w.Opts.Shellcheck = "shellcheck"
@@ -476,6 +492,12 @@ func (c20) Eval(c *Chooser, env *Env) *Outcome {
 				Message: fmt.Sprintf("a script was passed to %s %d times, expected %d: stdin=%q", key[:strings.Index(key, ":")], n, want[key], stdinOf[key])}
 			return o
 		}
+	}
+	if brokenRepo {
+		if res.Fatal == "" {
+			o.V = &Violation{Oracle: "no-fatal", Class: "unloadable-config-not-fatal", Message: "the configuration of the last argument's repository cannot be loaded but the call returned a normal result"}
+		}
+		return o
 	}
 	if fatalExpected {
 		// an injected failure of a listed kind must surface as a fatal error
